@@ -226,3 +226,64 @@ Fixpoint assemble (l : list (list byte * list byte)) : list byte :=
    followed by a separator that does not contain the signature *)
 Definition stream_ok (P : list byte -> Prop) (l : list (list byte * list byte)) : Prop :=
   Forall (fun x => starts_sig (fst x) /\ nosig (snd x) /\ P (fst x)) l.
+
+(* ---------------------------------------------------------------------- *)
+(* instantiation used by the correspondence check                          *)
+(* ---------------------------------------------------------------------- *)
+(* The harness observes, for every offset of the stream at which the signature
+   occurs, what the real decoder does on the suffix starting there, and hands
+   these observations over as a table; the scanner model then runs on top of
+   it.  What is compared with generate_bufr_message is therefore the scanning
+   logic (find, advance, except branch, filter protocol), not the decoder. *)
+Record entry := Entry {
+  en_off : N;                        (* offset of an occurrence of 'BUFR' *)
+  en_full : result (N * N);          (* full decode there: len(serialized_bytes), length.value *)
+  en_info : result (N * N);          (* metadata-only decode there: the same two numbers *)
+  en_filt : result bool;             (* bool(sr.run(metadata-only message)) *)
+  en_hook_full : result unit;        (* table-definition branch on the full decode *)
+  en_hook_info : result unit         (* ... on the metadata-only decode *)
+}.
+
+Fixpoint lookup (tbl : list entry) (off : N) : option entry :=
+  match tbl with
+  | [] => None
+  | en :: tbl' => if N.eqb (en_off en) off then Some en else lookup tbl' off
+  end.
+
+(* lengths beyond the end of the stream all behave alike (slices clip, the loop
+   ends when idx_start >= len(s)); they are cut to len(s)+1 so that no huge
+   unary number is ever built *)
+Definition clip (total : nat) (n : N) : nat :=
+  if N.ltb (N.of_nat total) n then S total else N.to_nat n.
+
+Definition tbl_process (tbl : list entry) (total : nat) (mode : N) (sl : list byte) : result msginfo :=
+  let off := N.of_nat (total - length sl) in
+  match lookup tbl off with
+  | None => Err EOther
+  | Some en =>
+    match (if N.eqb mode 0 then en_full en else en_info en) with
+    | Err e => Err e
+    | Ok (c, d) => Ok (MsgInfo (clip total c) (clip total d) [off; mode])
+    end
+  end.
+
+Definition tbl_filt (tbl : list entry) (mi : msginfo) : result bool :=
+  match mi_meta mi with
+  | [off; _] => match lookup tbl off with Some en => en_filt en | None => Err EOther end
+  | _ => Err EOther
+  end.
+
+Definition tbl_hook (tbl : list entry) (mi : msginfo) : result unit :=
+  match mi_meta mi with
+  | [off; mode] =>
+    match lookup tbl off with
+    | Some en => if N.eqb mode 0 then en_hook_full en else en_hook_info en
+    | None => Err EOther
+    end
+  | _ => Err EOther
+  end.
+
+Definition tbl_generate (tbl : list entry) (info_only continue_on_error use_filter : bool)
+           (s : list byte) : outcome :=
+  generate (tbl_process tbl (length s) 0) (tbl_process tbl (length s) 1)
+           (tbl_filt tbl) (tbl_hook tbl) info_only continue_on_error use_filter s.
